@@ -3,25 +3,36 @@
 //! (TCP: transaction id copied from the request; RTU: correct CRC) and the result of the request
 //! future is printed.
 //! args:        [--decode min|max]
-//! input line:  F K U S C V PDU    (see clientdrv::parse_case; PDU hex, '-' = empty)
+//! input line:  F K U S C V PDU    (see clientdrv::parse_case; PDU hex, '-' = empty; F = T|R, optionally
+//!              followed by the submit style: none = Channel futures, c = CallbackSession, x = FfiChannel)
+//!              PDU may instead be a raw inbound script `raw:<hex>(+<hex>)*[/Z|/E]`: no ADU is built, each
+//!              chunk is pushed verbatim on its own (the reader consumes chunk by chunk; `raw:` alone =
+//!              nothing arrives), then /Z = end of stream, /E = read error ConnectionReset, neither = the
+//!              stream stays pending (ResponseTimeout). The session of that framing is replaced after
+//!              every raw case (also TCP, so its transaction id restarts at 0).
 //! output line: REJECTED <err> | OK <..> <..> | OKX <idx:val,..> | ERR <err> | PANIC | BADLINE
+//!   <err> for style x when the synchronous call failed: <ChannelFull|ChannelClosed|range error>/<cb>,
+//!   <cb> = flat error name the callback received or `-` if it was not invoked; styles c/x also
+//!   LOST (callback dropped uncalled) and HUNG (no callback within 3 s of virtual time)
 //!
 //! Reader state never leaks between cases: the RTU session is replaced after every case in which a
 //! reply was delivered (the RTU parser derives the frame length from the reply itself, so a short or
 //! long reply would otherwise leave bytes / parser state behind), and so is any session whose case
 //! ended in ResponseTimeout. The TCP session persists otherwise (the reply always is exactly one
 //! MBAP frame), so its transaction id advances from case to case.
-use crate::clientdrv::{self as drv, Build, Case, Driver, Outcome};
+use crate::clientdrv::{self as drv, Build, Case, Done, Driver, RawEnd};
 use rodbus::RequestError;
 use tokio::task::JoinError;
 
-fn rejected(res: Result<Result<Outcome, RequestError>, JoinError>, session_panicked: bool) -> String {
+fn rejected(res: Result<Done, JoinError>, session_panicked: bool) -> String {
     match res {
         _ if session_panicked => "PANIC".to_string(),
         Err(e) if e.is_panic() => "PANIC".to_string(),
         Err(_) => "REJECTED CANCELLED".to_string(),
-        Ok(Ok(_)) => "REJECTED OK?".to_string(),
-        Ok(Err(e)) => format!("REJECTED {}", drv::request_err(e)),
+        Ok(d) => match drv::done_result(d) {
+            Ok(_) => "REJECTED OK?".to_string(),
+            Err(token) => format!("REJECTED {token}"),
+        },
     }
 }
 
@@ -34,7 +45,7 @@ async fn one(driver: &mut Driver, case: &Case) -> String {
     let sess = driver.session(case).await;
     let wire = sess.wire.clone();
     wire.take_out();
-    let handle = drv::submit(sess.channel.clone(), drv::param(case), prepared);
+    let handle = drv::submit(sess.channel.clone(), drv::param(case), prepared, case.style);
 
     // wait (without letting the paused clock advance) until the request frame is on the wire or the
     // request has completed without one
@@ -64,20 +75,35 @@ async fn one(driver: &mut Driver, case: &Case) -> String {
         }
     };
 
-    wire.push(&drv::reply_adu(case, &frame));
+    match &case.raw {
+        None => wire.push(&drv::reply_adu(case, &frame)),
+        Some(raw) => {
+            for chunk in &raw.chunks {
+                wire.push(chunk);
+                crate::wire::settle().await;
+            }
+            match raw.end {
+                RawEnd::Pending => {}
+                RawEnd::Eof => wire.set_eof(),
+                RawEnd::Error => wire.set_read_error(std::io::ErrorKind::ConnectionReset),
+            }
+        }
+    }
     let res = handle.await;
-    let timed_out = matches!(res, Ok(Err(RequestError::ResponseTimeout)));
-    let session_panicked = driver.after_case(case.rtu, case.rtu || timed_out).await;
+    let timed_out = matches!(res, Ok(Done::Result(Err(RequestError::ResponseTimeout))) | Ok(Done::Hung));
+    let session_panicked = driver.after_case(case.rtu, case.rtu || timed_out || case.raw.is_some()).await;
     wire.take_out();
     match res {
         _ if session_panicked => "PANIC".to_string(),
         Err(e) if e.is_panic() => "PANIC".to_string(),
         Err(_) => "ERR CANCELLED".to_string(),
-        Ok(Ok(o)) => match std::panic::catch_unwind(std::panic::AssertUnwindSafe(|| drv::format_outcome(&o))) {
-            Ok(s) => s,
-            Err(_) => "PANIC".to_string(),
+        Ok(d) => match drv::done_result(d) {
+            Ok(o) => match std::panic::catch_unwind(std::panic::AssertUnwindSafe(|| drv::format_outcome(&o))) {
+                Ok(s) => s,
+                Err(_) => "PANIC".to_string(),
+            },
+            Err(token) => format!("ERR {token}"),
         },
-        Ok(Err(e)) => format!("ERR {}", drv::request_err(e)),
     }
 }
 
